@@ -59,6 +59,13 @@ func genC18(g *gen) {
 			cdt := []string{"u8", "i16", "f32", "f64", "c128"}[gi%5]
 			steps = append(steps, fmt.Sprintf("new %s 2 C", cdt), fmt.Sprintf("bin add fn $%d #k3", lv), fmt.Sprintf("dump $%d", lv+1))
 			lv += 2
+			if len(sh) == 3 && isFloat {
+				// every goroutine contracts the shared contiguous rank-3 tensor over its trailing axes (as left operand) and
+				// reads it: the receiver of a contraction must not be reshaped in place, not even temporarily
+				steps = append(steps, fmt.Sprintf("la tdot %s $%d $%d 1,2 1,2", []string{"fn", "meth"}[gi%2], shared[0], shared[0]), fmt.Sprintf("dump $%d", lv),
+					fmt.Sprintf("atbox $%d 0 -1", shared[0]))
+				lv++
+			}
 			nsteps := 3 + g.r.intn(6)
 			for s := 0; s < nsteps; s++ {
 				sv := shared[g.r.intn(len(shared))]
@@ -117,6 +124,12 @@ func genC18(g *gen) {
 							c := lv
 							lv++
 							steps = append(steps, fmt.Sprintf("la %s fn $%d $%d", g.r.pick([]string{"mm", "dot"}), sv, c), fmt.Sprintf("dump $%d", lv))
+							lv++
+						} else if len(sh) == 3 {
+							// contractions of two shared rank-3 tensors (same logical shape 2,3,2): over the trailing axes of the
+							// left operand, over its leading axis, and the general Dot
+							ax := g.r.pick([]string{"1,2 1,2", "2 0", "0 2", "0,1 0,1"})
+							steps = append(steps, fmt.Sprintf("la tdot %s $%d $%d %s", g.r.pick([]string{"fn", "meth"}), sv, o, ax), fmt.Sprintf("dump $%d", lv))
 							lv++
 						}
 					}
